@@ -42,6 +42,7 @@ func cmdRun(args []string) int {
 	paramS := fs.String("params", "", "k=v,k=v harness parameters")
 	sinkS := fs.String("sinks", "", "comma-separated target functions treated as sinks")
 	preempt := fs.Int("preempt", 0, "preemption budget at atomic operations")
+	preemptLocks := fs.Bool("preempt-locks", false, "preemption points also before mutex acquisitions")
 	fs.Parse(args)
 	eng, err := LoadEngine(*repo, *overlay, []string{*pkg})
 	if err != nil {
@@ -69,7 +70,7 @@ func cmdRun(args []string) int {
 			fmt.Fprintln(os.Stderr, "no such harness:", h)
 			return 2
 		}
-		res := eng.Explore(fn, ExploreOpts{Workers: *workers, MaxPaths: *maxPaths, MaxViolations: 3, Tier: *tier, SampleEvery: 50, MaxSamples: 10, Params: params, Preempt: *preempt})
+		res := eng.Explore(fn, ExploreOpts{Workers: *workers, MaxPaths: *maxPaths, MaxViolations: 3, Tier: *tier, SampleEvery: 50, MaxSamples: 10, Params: params, Preempt: *preempt, PreemptLocks: *preemptLocks})
 		results = append(results, res)
 		fmt.Printf("%s: paths=%d completed=%d vacuous=%d inconclusive=%d violations=%d decisions=%d forced=%d instrs=%d queries=%d (sat %d unsat %d unknown %d) solver=%v wall=%v\n",
 			res.Harness, res.Paths, res.Completed, res.Vacuous, res.Inconclusive, len(res.Violations), res.Decisions, res.Forced, res.Instrs,
